@@ -223,6 +223,39 @@ pub async fn script_snapshot(mut h: CloudHandle, log: EvLog, client: usize, vers
     ok as usize
 }
 
+/// Like a real replica told that a snapshot is urgent: walk to the end of the chain, add one
+/// version, and on success store a snapshot *of that new version*. `make_snapshot` builds the
+/// snapshot bytes from all version payloads up to and including the new one.
+pub async fn script_adder_snapshot(
+    mut h: CloudHandle,
+    store: MemStore,
+    log: EvLog,
+    client: usize,
+    mut base: Uuid,
+    mut seen: Vec<Vec<u8>>,
+    payload: Vec<u8>,
+    make_snapshot: fn(&[Vec<u8>]) -> Vec<u8>,
+) -> usize {
+    for _try in 0..6 {
+        let mut guard = 0;
+        while let Ok(Some((v, bytes))) = c_get(&mut h, &log, client, base).await {
+            base = v;
+            seen.push(bytes);
+            guard += 1;
+            if guard > 200 {
+                break;
+            }
+        }
+        if let Ok(AddVersionResult2::Ok(v)) = c_add(&mut h, &store, &log, client, base, payload.clone()).await {
+            seen.push(payload.clone());
+            let ok = h.add_snapshot(v, make_snapshot(&seen)).await.is_ok();
+            log.lock().unwrap().push(CEv::SnapRet { client, version: v, ok });
+            return 1;
+        }
+    }
+    0
+}
+
 pub async fn script_cleanup(mut h: CloudHandle, log: EvLog, client: usize) -> usize {
     let ok = h.cleanup().await.is_ok();
     log.lock().unwrap().push(CEv::CleanupRet { client, ok });
